@@ -69,6 +69,14 @@ pub fn fn_bases() -> Vec<Base> {
             false,
         ),
         Base::from_wat("fn-empty", "(module)", false),
+        // exactly one import and one local function: one deletion empties a counter
+        Base::from_wat(
+            "fn-one-each",
+            r#"(module (type $v (func)) (import "env" "fi0" (func $fi0 (type $v)))
+              (func $l0 (type $v) (i32.const 0x5F000000) drop (i32.const 0x51000000) drop (call $fi0))
+              (elem declare func $fi0 $l0))"#,
+            false,
+        ),
         // function imports interleaved with non-function imports (ImportsID != FunctionID)
         Base::from_wat(
             "fn-mixed-imports",
@@ -130,6 +138,14 @@ pub fn global_bases() -> Vec<Base> {
             "gl-no-imports",
             r#"(module (type $v (func)) (global $g0 (mut i32) (i32.const 0x60000000)) (global $g1 i32 (i32.const 0x60000001)) (global $gspare (mut i32) (i32.const 0x60000002))
               (func $l0 (type $v) (i32.const 0x5F000000) drop (i32.const 0x51000000) drop (global.get $g1) drop (i32.const 0) (i32.const 0x51000001) drop (global.set $g0)))"#,
+            false,
+        ),
+        // exactly one imported and one local global: one deletion empties a counter
+        Base::from_wat(
+            "gl-one-each",
+            r#"(module (type $v (func)) (import "env" "gi0" (global $gi0 i32)) (global $g0 (mut i32) (i32.const 0x60000000))
+              (func $l0 (type $v) (i32.const 0x5F000000) drop (i32.const 0) (i32.const 0x51000000) drop (global.set $g0))
+              (func $l1 (type $v) (i32.const 0x5F000001) drop (i32.const 0x51000001) drop (global.get $gi0) drop))"#,
             false,
         ),
         Base::from_wat(
@@ -213,6 +229,37 @@ pub fn mem_bases() -> Vec<Base> {
               (export "e_m1" (memory $m1)) (data (memory $m1) (i32.const 0) "x"))"#,
             true,
         ),
+        // exactly one imported and one local memory
+        Base::from_wat(
+            "mem-one-each",
+            r#"(module (type $v (func)) (import "env" "mi0" (memory $mi0 1)) (memory $m0 16)
+              (func $l0 (type $v) (i32.const 0x5F000000) drop (i32.const 0) (i32.const 0x51000000) drop (i32.load $m0) drop)
+              (func $l1 (type $v) (i32.const 0x5F000001) drop (i32.const 0) (i32.const 0x51000001) drop (i32.load $mi0) drop))"#,
+            true,
+        ),
+        // every ordered pair (dst, src) of four memories in a two-memory operator
+        Base::from_wat(
+            "mem-copy-pairs",
+            &{
+                let names = ["$mi0", "$mi1", "$m0", "$m1"];
+                let mut body = String::new();
+                let mut site = 0x20;
+                for d in names.iter() {
+                    for s in names.iter() {
+                        body.push_str(&format!("(i32.const 0) (i32.const 0) (i32.const 0) (i32.const {}) drop (memory.copy {} {})\n", 0x51000000 + site, d, s));
+                        site += 1;
+                    }
+                }
+                format!(
+                    r#"(module (type $v (func)) (import "env" "mi0" (memory $mi0 1)) (import "env" "mi1" (memory $mi1 2)) (import "env" "mspare" (memory $mspare 3))
+                      (memory $m0 16) (memory $m1 17) (memory $mspare2 18)
+                      (func $l0 (type $v) (i32.const 0x5F000000) drop {})
+                      (func $l1 (type $v) (i32.const 0x5F000001) drop))"#,
+                    body
+                )
+            },
+            true,
+        ),
         Base::from_wat(
             "mem-single",
             r#"(module (type $v (func)) (memory $m0 16)
@@ -288,11 +335,17 @@ pub fn fn_alphabet(deep_inject: bool) -> impl Fn(&Model) -> Vec<Op> + Sync {
                     if kind == 2 && !declared {
                         continue;
                     }
-                    // alternate the API path deterministically so both are covered without doubling the alphabet
-                    let api = ((oi + ti + kind as usize) % 2) as u8;
+                    // rotate the API path deterministically so that all are covered without multiplying the
+                    // alphabet: (target, kind) pairs walk through the paths of INJECT_APIS
+                    let n_api = INJECT_APIS.len();
+                    let api = ((oi + ti * 3 + kind as usize * 2) % n_api) as u8;
                     ops.push(Op::InjectFn { owner: *owner, kind, target: *t, api });
                     if deep_inject {
-                        ops.push(Op::InjectFn { owner: *owner, kind, target: *t, api: 1 - api });
+                        for a in 0..n_api as u8 {
+                            if a != api {
+                                ops.push(Op::InjectFn { owner: *owner, kind, target: *t, api: a });
+                            }
+                        }
                     }
                 }
             }
@@ -347,9 +400,12 @@ pub fn global_alphabet() -> impl Fn(&Model) -> Vec<Op> + Sync {
                 if g.ty != "i32" {
                     continue;
                 }
-                ops.push(Op::InjectGlobal { owner, set: false, target: *t, api: (i % 2) as u8 });
+                let n_api = INJECT_APIS.len();
+                ops.push(Op::InjectGlobal { owner, set: false, target: *t, api: ((i * 2) % n_api) as u8 });
+                ops.push(Op::InjectGlobal { owner, set: false, target: *t, api: ((i * 2 + 3) % n_api) as u8 });
                 if g.mutable {
-                    ops.push(Op::InjectGlobal { owner, set: true, target: *t, api: ((i + 1) % 2) as u8 });
+                    ops.push(Op::InjectGlobal { owner, set: true, target: *t, api: ((i * 2 + 1) % n_api) as u8 });
+                    ops.push(Op::InjectGlobal { owner, set: true, target: *t, api: ((i * 2 + 5) % n_api) as u8 });
                 }
             }
         }
@@ -377,11 +433,26 @@ pub fn mem_alphabet() -> impl Fn(&Model) -> Vec<Op> + Sync {
         }
         let targets = pick(targets);
         if let Some(owner) = owner {
+            let n_api = INJECT_APIS.len();
             for (i, t) in targets.iter().enumerate() {
-                for c in 0..MEM_PROBES.len() as u8 {
+                for c in 0..8u8 {
                     // every operator class on the newest memory, a rotating subset elsewhere
                     if i + 1 == targets.len() || (c as usize + i) % 3 == 0 {
-                        ops.push(Op::InjectMem { owner, opclass: c, target: *t });
+                        ops.push(Op::InjectMem { owner, opclass: c, target: *t, other: 0, api: ((c as usize + i * 3) % n_api) as u8 });
+                    }
+                }
+            }
+            // two-memory operator: every ordered pair of distinct live memories among the first four and
+            // the newest (an index that is correct for one operand can be wrong for the other)
+            let mut pool: Vec<u32> = live.iter().take(4).map(|g| g.handle).collect();
+            if let Some(g) = live.last() {
+                pool.push(g.handle);
+            }
+            let pool = pick(pool);
+            for (i, d) in pool.iter().enumerate() {
+                for (j, s) in pool.iter().enumerate() {
+                    if d != s {
+                        ops.push(Op::InjectMem { owner, opclass: 8, target: *d, other: *s, api: ((i + j) % n_api) as u8 });
                     }
                 }
             }
@@ -412,7 +483,7 @@ fn binding_check(id: &'static str, tier: Tier, bases: Vec<Base>, alphabet: &(dyn
         depth, what, bases.len()
     );
     let judge = move |c: &Clause, _h: &[Op]| c.kind == kind || matches!(c.kind, ClauseKind::Generic | ClauseKind::DupId | ClauseKind::Content);
-    let s = Search { bases: &bases, depth, cfg: CFG1, enabled: alphabet, judge: &judge, relevant: &|_| true, max_states: tier.pick(400_000, 6_000_000) };
+    let s = Search { bases: &bases, depth, cfg: CFG1, enabled: alphabet, judge: &judge, relevant: &|_| true, max_states: tier.pick(1_000_000, 30_000_000) };
     run_search(&mut run, &s);
     run.extra.insert("depth_completed".into(), json!(depth));
     run.extra.insert("bases".into(), json!(bases.iter().map(|b| b.name.clone()).collect::<Vec<_>>()));
@@ -423,15 +494,15 @@ fn binding_check(id: &'static str, tier: Tier, bases: Vec<Base>, alphabet: &(dyn
 
 pub fn check_c06(tier: Tier) -> i32 {
     let a = fn_alphabet(false);
-    binding_check("C06", tier, fn_bases(), &a, ClauseKind::Func, 2, 3, "function/import")
+    binding_check("C06", tier, fn_bases(), &a, ClauseKind::Func, 3, 4, "function/import")
 }
 pub fn check_c07(tier: Tier) -> i32 {
     let a = global_alphabet();
-    binding_check("C07", tier, global_bases(), &a, ClauseKind::Global, 2, 3, "global")
+    binding_check("C07", tier, global_bases(), &a, ClauseKind::Global, 3, 4, "global")
 }
 pub fn check_c08(tier: Tier) -> i32 {
     let a = mem_alphabet();
-    binding_check("C08", tier, mem_bases(), &a, ClauseKind::Mem, 2, 3, "memory")
+    binding_check("C08", tier, mem_bases(), &a, ClauseKind::Mem, 3, 4, "memory")
 }
 
 fn bases_for(id: &str) -> Vec<Base> {
